@@ -111,6 +111,13 @@ ExportImport(i) ==
   /\ srv' = ExpImpSt(srv, i)
   /\ steps' = steps + 1
 
+\* key synchronisation between two live instances: j installs the state exported by i
+\* (set_private_key on an instance that already holds a — possibly older — state)
+SyncSt(sv, i, j) == [sv EXCEPT ![j] = ImportInto(sv[j], ExportOf(sv[i]))]
+Sync(i, j) == /\ i # j
+              /\ srv' = SyncSt(srv, i, j)
+              /\ steps' = steps + 1
+
 \* a second, independently keyed server (at most one)
 NewOtherSt(sv) == Append(sv, NewServer(2, Reg2))
 NewOther == /\ Len(srv) < MaxInst
@@ -120,6 +127,7 @@ NewOther == /\ Len(srv) < MaxInst
 
 Next == \/ \E i \in Live, md \in Tags : Puncture(i, md)
         \/ \E i \in Live : Clone(i) \/ ExportImport(i)
+        \/ \E i, j \in Live : Sync(i, j)
         \/ NewOther
 
 Spec == Init /\ [][Next]_vars
@@ -159,13 +167,16 @@ GGMOk ==
 
 Inv == PkImmutable /\ AnswersIffRegisteredUnpunctured /\ AnswerStable /\ KeysSeparate /\ GGMOk
 
-\* action properties: a step changes at most one existing instance, and only its GGM key
-\* (puncture is local; clones and imports evolve independently)
+\* action property: a step changes at most one existing instance, and either only its GGM key
+\* by further punctures (puncture is local; clones and imports evolve independently) or, for a
+\* key synchronisation, by making it an exact copy of another live instance
 StepLocal ==
   [][/\ Len(srv') >= Len(srv)
      /\ Cardinality({i \in Live : srv'[i] # srv[i]}) <= 1
-     /\ \A i \in Live : srv'[i].key = srv[i].key /\ srv'[i].pk = srv[i].pk
-     /\ \A i \in Live : PunctOf(srv[i]) \subseteq PunctOf(srv'[i])]_vars
+     /\ \A i \in Live :
+          \/ /\ srv'[i].key = srv[i].key /\ srv'[i].pk = srv[i].pk
+             /\ PunctOf(srv[i]) \subseteq PunctOf(srv'[i])
+          \/ \E k \in Live : k # i /\ srv'[i] = srv[k]]_vars
 
 \* a restored server is indistinguishable from the exporter at the moment of export
 ImportFaithful ==
